@@ -49,6 +49,8 @@ pub enum TypeErrorEnum {
     UnusedFn(String),
     /// A top-level function calls itself recursively.
     RecursiveFnDef(String),
+    /// A struct or enum contains itself (directly or through other types).
+    RecursiveTypeDef(String),
     /// No struct or enum declaration with the specified name exists.
     UnknownStructOrEnum(String),
     /// No struct declaration with the specified name exists.
@@ -134,6 +136,9 @@ impl std::fmt::Display for TypeErrorEnum {
             )),
             TypeErrorEnum::RecursiveFnDef(name) => f.write_fmt(format_args!(
                 "Function '{name}' is declared recursively, which is not supported"
+            )),
+            TypeErrorEnum::RecursiveTypeDef(name) => f.write_fmt(format_args!(
+                "Type '{name}' contains itself, recursive types are not supported"
             )),
             TypeErrorEnum::UnknownStructOrEnum(name) => {
                 f.write_fmt(format_args!("Unknown struct or enum '{name}'"))
@@ -354,6 +359,48 @@ impl TypedFns {
     }
 }
 
+/// Returns whether a value of type `ty` contains (by value, directly or through other
+/// structs, enums, tuples or arrays) a value of the struct or enum named `target`, not
+/// counting `ty` itself.
+fn contains_type_def(
+    ty: &Type,
+    target: &str,
+    struct_defs: &HashMap<String, StructDef>,
+    enum_defs: &HashMap<String, EnumDef>,
+    visited: &mut HashSet<String>,
+) -> bool {
+    match ty {
+        Type::Struct(name) | Type::Enum(name) => {
+            if !visited.insert(name.clone()) {
+                return name == target;
+            }
+            let field_types: Vec<&Type> = if let Some(def) = struct_defs.get(name) {
+                def.fields.iter().map(|(_, ty)| ty).collect()
+            } else if let Some(def) = enum_defs.get(name) {
+                def.variants
+                    .iter()
+                    .flat_map(|v| match v {
+                        Variant::Unit(_) => [].iter(),
+                        Variant::Tuple(_, fields) => fields.iter(),
+                    })
+                    .collect()
+            } else {
+                vec![]
+            };
+            field_types
+                .into_iter()
+                .any(|ty| contains_type_def(ty, target, struct_defs, enum_defs, visited))
+        }
+        Type::Tuple(fields) => fields
+            .iter()
+            .any(|ty| contains_type_def(ty, target, struct_defs, enum_defs, visited)),
+        Type::Array(elem, _) | Type::ArrayConst(elem, _) | Type::ArrayConstExpr(elem, _) => {
+            contains_type_def(elem, target, struct_defs, enum_defs, visited)
+        }
+        _ => false,
+    }
+}
+
 impl UntypedProgram {
     /// Type-checks the parsed program, returning either a typed AST or type errors.
     pub fn type_check(&self) -> Result<TypedProgram, Vec<TypeError>> {
@@ -498,6 +545,33 @@ impl UntypedProgram {
                 });
             }
             enum_defs.insert(enum_name.clone(), EnumDef { variants, meta });
+        }
+
+        // A type that contains itself has no finite size in bits: report it here and stop,
+        // everything downstream recurses over the type definitions.
+        for (name, meta) in struct_defs
+            .iter()
+            .map(|(name, def)| (name, def.meta))
+            .chain(enum_defs.iter().map(|(name, def)| (name, def.meta)))
+        {
+            let ty = if struct_defs.contains_key(name) {
+                Type::Struct(name.clone())
+            } else {
+                Type::Enum(name.clone())
+            };
+            if contains_type_def(&ty, name, &struct_defs, &enum_defs, &mut HashSet::new()) {
+                let e = TypeErrorEnum::RecursiveTypeDef(name.clone());
+                errors.push(Some(TypeError::new(e, meta)));
+            }
+        }
+        if errors
+            .iter()
+            .flatten()
+            .any(|TypeError(e, _)| matches!(**e, TypeErrorEnum::RecursiveTypeDef(_)))
+        {
+            let mut errors: Vec<TypeError> = errors.into_iter().flatten().collect();
+            errors.sort();
+            return Err(errors);
         }
 
         let mut untyped_defs = Defs::new(&const_types, &struct_defs, &enum_defs);
